@@ -3,7 +3,6 @@
 use vstd::prelude::*;
 use vstd::std_specs::iter::{IteratorSpec, filter_iter, filter_fun};
 use std::path::{Path, PathBuf};
-use std::collections::HashSet;
 
 // T7: the real data types, not a copy
 #[path = "/repo/src/fixtures/types.rs"]
